@@ -14,11 +14,12 @@ import (
 	"verif/harness/vlib/refcurve"
 )
 
-// KnownMSMEmpty: Curve.MultiScalarMul / algebrautils.MultiScalarMul panic on vectors of length 0
-// (the mathematical value is the identity). Catalogue id proposed to the lead.
-const KnownMSMEmpty = "C14-msm-empty-panics"
+// Length 0: Curve.MultiScalarMul / MultiScalarOp return the identity (fixed finding
+// C14-msm-empty-panics, commit 0c462cf; TestMSMEmpty is its regression test). The generic
+// algebrautils.MultiScalarMul is NOT called with length 0: it cannot know the monoid without a
+// point and panics by design (documented by the lead, not a finding).
 
-// MSMCase: vectors of length 1, 2, 3, 7, 8, 9, 17, 64 (7/8 is the naive/bucket switch of the
+// MSMCase: vectors of length 0, 1, 2, 3, 7, 8, 9, 17, 64 (7/8 is the naive/bucket switch of the
 // implementation) with repeated points, identity points, zero / one / N-1 scalars.
 // Oracle: n <= 3 (and a drawn sixth of the longer ones): refcurve.MultiScalarMul directly;
 // longer vectors: every pool point is [a]G + [e]T8 with (a, e) known by construction, so the model
@@ -26,12 +27,19 @@ const KnownMSMEmpty = "C14-msm-empty-panics"
 func (g *G[P, F, S]) MSMCase(t *rapid.T) {
 	const test = "MultiScalarMul"
 	c := g.ref
-	n := rapid.SampledFrom([]int{1, 1, 2, 2, 3, 7, 8, 9, 17, 17, 64}).Draw(t, "n")
+	n := rapid.SampledFrom([]int{0, 1, 1, 2, 2, 3, 7, 8, 9, 17, 17, 64}).Draw(t, "n")
 	methods := []string{"autils", "autilsNat"}
 	if g.msm != nil {
 		methods = []string{"MultiScalarMul", "MultiScalarMul", "MultiScalarOp", "autils", "autilsNat"}
 	}
 	method := rapid.SampledFrom(methods).Draw(t, "method")
+	if n == 0 && (method == "autils" || method == "autilsNat") {
+		if g.msm == nil {
+			n = 1
+		} else {
+			method = "MultiScalarMul" // the generic routine is not defined on empty input, see above
+		}
+	}
 	shape := rapid.SampledFrom([]string{"mixed", "mixed", "mixed", "all-same-point", "all-zero-scalars", "one-nonzero", "pairs-cancel", "all-identity"}).Draw(t, "shape")
 	direct := n <= 3 || (n <= 17 && rapid.IntRange(0, 5).Draw(t, "direct") == 0)
 
@@ -182,66 +190,47 @@ func TestMultiScalarMul(t *testing.T) {
 	vlib.Check(t, 2400, func(t *rapid.T) { drawGroup(t).MSMCase(t) })
 }
 
-// MSMEmpty calls every multi-scalar entry point with empty vectors and reports which ones panic.
-func (g *G[P, F, S]) MSMEmpty(t *testing.T) (panicked, fine []string) {
-	try := func(name string, f func() (P, error)) {
+// MSMEmpty: regression test of the fixed finding C14-msm-empty-panics. Empty vectors give the
+// identity without an error (nil and empty slices alike); mismatched lengths are an error.
+func (g *G[P, F, S]) MSMEmpty(t *testing.T) {
+	if g.msm == nil {
+		return
+	}
+	for name, f := range map[string]func() (P, error){
+		"MultiScalarMul(empty, empty)": func() (P, error) { return g.msm([]S{}, []P{}) },
+		"MultiScalarMul(nil, nil)":     func() (P, error) { return g.msm(nil, nil) },
+		"MultiScalarOp(empty, empty)":  func() (P, error) { return g.msop([]S{}, []P{}) },
+		"MultiScalarOp(nil, nil)":      func() (P, error) { return g.msop(nil, nil) },
+	} {
 		var p P
 		var err error
-		pan := func() (r any) {
-			defer func() { r = recover() }()
-			p, err = f()
-			return nil
-		}()
-		switch {
-		case pan != nil:
-			panicked = append(panicked, fmt.Sprintf("%s.%s: panic %v", g.name, name, pan))
-		case err != nil:
-			fine = append(fine, fmt.Sprintf("%s.%s: error", g.name, name)) // a rejection is an acceptable answer
-		default:
-			if !p.IsOpIdentity() {
-				t.Fatalf("%s: %s of empty vectors is not the identity", g.name, name)
-			}
-			fine = append(fine, fmt.Sprintf("%s.%s: identity", g.name, name))
+		vlib.NoPanic(t, g.name+"."+name, func() { p, err = f() })
+		if err != nil {
+			t.Fatalf("%s: %s: %v", g.name, name, err)
 		}
+		g.expect(t, name, p, g.ref.Neutral())
 	}
-	if g.msm != nil {
-		try("MultiScalarMul", func() (P, error) { return g.msm([]S{}, []P{}) })
-		try("MultiScalarOp", func() (P, error) { return g.msop(nil, nil) })
+	one := []S{g.sf.One()}
+	var err error
+	vlib.NoPanic(t, g.name+".MultiScalarMul(1 scalar, 0 points)", func() { _, err = g.msm(one, []P{}) })
+	if err == nil {
+		t.Fatalf("%s: MultiScalarMul with 1 scalar and 0 points returned no error", g.name)
 	}
-	try("algebrautils.MultiScalarMul", func() (P, error) { return algebrautils.MultiScalarMul([]S{}, []P{}), nil })
-	// mismatched lengths must be an error where the signature has one
-	if g.msm != nil {
-		one := []S{g.sf.One()}
-		func() {
-			defer func() {
-				if r := recover(); r != nil {
-					t.Fatalf("%s: MultiScalarMul with 1 scalar and 0 points panics: %v", g.name, r)
-				}
-			}()
-			if _, err := g.msm(one, []P{}); err == nil {
-				t.Fatalf("%s: MultiScalarMul with 1 scalar and 0 points returned no error", g.name)
-			}
-		}()
+	vlib.NoPanic(t, g.name+".MultiScalarMul(0 scalars, 1 point)", func() { _, err = g.msm([]S{}, []P{g.cv.PrimeSubGroupGenerator()}) })
+	if err == nil {
+		t.Fatalf("%s: MultiScalarMul with 0 scalars and 1 point returned no error", g.name)
 	}
-	return panicked, fine
 }
 
-func TestMSMEmptyKnown(t *testing.T) {
-	const test = "MSMEmptyKnown"
-	var panicked, fine []string
+func TestMSMEmpty(t *testing.T) {
+	const test = "MSMEmpty"
 	for i, g := range groups() {
 		if !vlib.Mine(i) {
 			continue
 		}
 		g.Prepare(t)
-		p, f := g.MSMEmpty(t)
-		panicked, fine = append(panicked, p...), append(fine, f...)
-		vlib.Excluded(KnownMSMEmpty)
-		vlib.Case(test, vlib.Desc(g.Name(), "n=0"), true, "curve="+g.Name(), "panics="+fmt.Sprint(len(p) > 0))
-	}
-	if len(panicked)+len(fine) > 0 {
-		vlib.Known(KnownMSMEmpty, len(panicked) > 0, fmt.Sprintf("multi-scalar multiplication of empty vectors: %d entry points panic (%s), %d answer (%s)",
-			len(panicked), strings.Join(panicked, "; "), len(fine), strings.Join(fine, "; ")))
+		g.MSMEmpty(t)
+		vlib.Case(test, vlib.Desc(g.Name(), "n=0"), true, "curve="+g.Name())
 	}
 }
 
